@@ -202,6 +202,8 @@ func c08Run(c *fw.Ctx, id, pair string, src []byte, decorate func() (*dst.File, 
 }
 
 func runC08(c *fw.Ctx) {
+	// a syntax-only resolver that lives as long as the process and names every package exactly
+	sharedGoast := goast.WithResolver(c08AllNames{})
 	// (a) goast with an exact map, over the corpus
 	files := corpus.Sample(c.Rand("files"), c.Pick(500, 0))
 	for i, p := range files {
@@ -224,6 +226,12 @@ func runC08(c *fw.Ctx) {
 		}
 		c08Run(c, id, "goast+simple", src, func() (*dst.File, error) { return dec(src) }, simple.New(names), dec)
 		c08Run(c, id, "goast+guess.WithMap", src, func() (*dst.File, error) { return dec(src) }, guess.WithMap(names), dec)
+		// one syntax-only resolver shared by all the decorators of this process, each of which has a
+		// file set of its own (positions of different files coincide)
+		decShared := func(s []byte) (*dst.File, error) {
+			return decorator.NewDecoratorWithImports(token.NewFileSet(), "example.com/self", sharedGoast).Parse(s)
+		}
+		c08Run(c, id, "goast(shared, own file sets)+simple", src, func() (*dst.File, error) { return decShared(src) }, simple.New(names), decShared)
 
 		// comments / line breaks around the dot of qualified identifiers and in import specs
 		if len(src) < 50000 {
@@ -265,6 +273,10 @@ func runC08(c *fw.Ctx) {
 		}
 		c08Run(c, "zoo:"+k, "goast+simple", b, func() (*dst.File, error) { return dec(b) }, simple.New(names), dec)
 		c08Run(c, "zoo:"+k, "goast+guess.WithMap", b, func() (*dst.File, error) { return dec(b) }, guess.WithMap(names), dec)
+		decShared := func(s []byte) (*dst.File, error) {
+			return decorator.NewDecoratorWithImports(token.NewFileSet(), "example.com/self", sharedGoast).Parse(s)
+		}
+		c08Run(c, "zoo:"+k, "goast(shared, own file sets)+simple", b, func() (*dst.File, error) { return decShared(b) }, simple.New(names), decShared)
 	}
 
 	// (a5) every qualified identifier of the context files x every insertion variant, one at a time
@@ -861,4 +873,18 @@ func c08GenImports(r interface{ Intn(int) int }) (string, map[string]string) {
 		out = string(g)
 	}
 	return out, names
+}
+
+// c08AllNames resolves standard-library packages from their package clauses and the handful of
+// other paths the synthetic inputs use from a fixed table.
+type c08AllNames struct{}
+
+func (c08AllNames) ResolvePackage(path string) (string, error) {
+	if n, ok := map[string]string{"x.com/y/log": "log", "gopkg.in/yaml.v2": "yaml", "unsafe": "unsafe", "C": "C"}[path]; ok {
+		return n, nil
+	}
+	if n := corpus.StdPkgName(path); n != "" {
+		return n, nil
+	}
+	return "", resolver.ErrPackageNotFound
 }
